@@ -22,3 +22,12 @@ Theorem C15_each_track_in_sample_order : forall vs as_,
   filter is_audio_entry (compute_interleave_schedule vs as_) = audio_entries as_.
 Proof. intros vs as_ Hv Ha. split; [apply schedule_keeps_video_in_sample_order | apply schedule_keeps_audio_in_sample_order]; assumption. Qed.
 Print Assumptions C15_each_track_in_sample_order.
+
+From Muxide Require Export Model.Api Spec.Checks Proofs.EndToEndProofs.
+(* END TO END: storage order read back from every finished file *)
+Theorem C15_finished_file_storage_order : forall b m0 ops m rs s,
+  build b [] = inl m0 -> run m0 ops = (m, rs) -> In (RStats s) rs ->
+  Forall op_payload_ok ops -> len (sink_of m) < 4294967296 ->
+  check_C15 b ops (map class_of rs) (sink_of m) = true.
+Proof. exact finished_file_storage_order. Qed.
+Print Assumptions C15_finished_file_storage_order.
